@@ -245,9 +245,13 @@ class RefSimulation(object):
             while j < n_log and (log_times[j] < tnext or (log_times[j] == tnext and tnext >= duration)):
                 seg.append(log_times[j])
                 j += 1
-            if tnext > t:
-                pts = sorted(set([x for x in seg if x > t] + [tnext]))
-                sol = solve_ivp(lambda tt, zz: f(tt, zz, pace)[0], (t, tnext), z, method='LSODA',
+            # nothing is observed after the last log time: the tail up to `duration` (chi asks for
+            # `times[-1] + 1`) is not integrated; the state kept afterwards is the one at the last log time
+            # (chi resets and sets the state before every run)
+            tstop = tnext if j < n_log else max([t] + seg)
+            if tstop > t:
+                pts = sorted(set([x for x in seg if x > t] + [tstop]))
+                sol = solve_ivp(lambda tt, zz: f(tt, zz, pace)[0], (t, tstop), z, method='LSODA',
                                 rtol=1e-10, atol=1e-12, t_eval=pts)
                 if not sol.success:
                     raise RuntimeError('refsim: integration failed: ' + str(sol.message))
@@ -255,7 +259,7 @@ class RefSimulation(object):
                 for lt in seg:
                     record(lt, z if lt <= t else col[lt], pace, idx)
                     idx += 1
-                z = col[tnext]
+                z = col[tstop]
             else:
                 for lt in seg:
                     record(lt, z, pace, idx)
